@@ -23,10 +23,35 @@ from .invariants import check_accessors, check_roundtrip, check_message
 from .world import SimFS, SimS3, InjectedOSError
 
 logging.disable(logging.CRITICAL)
+HOST_FILTER = 'mosromgr-verif: a host application filter that never matches'
 
 import mosromgr.mostypes as MT            # noqa: E402
 import mosromgr.moscollection as MC       # noqa: E402
 from mosromgr import exc as MX            # noqa: E402
+
+
+_CODE_CACHE = {}
+_MOD_ORDER = ['mosromgr.exc', 'mosromgr.utils.xml', 'mosromgr.utils.s3', 'mosromgr.utils', 'mosromgr.moselements',
+              'mosromgr.mostypes', 'mosromgr.moscollection', 'mosromgr.cli']
+
+
+def fresh_modules():
+    """Re-execute the mosromgr modules in place so that module- and class-level state of one simulated run
+    (caches, class attributes, default arguments) cannot leak into the next: one seed is one repeatable
+    execution.  State carried *within* a run is kept - that is where the simulator looks for it."""
+    import mosromgr.cli     # noqa - make sure everything is loaded
+    names = [n for n in sys.modules if n == 'mosromgr' or n.startswith('mosromgr.')]
+    extra = [n for n in names if n not in _MOD_ORDER and n != 'mosromgr']
+    for n in extra + _MOD_ORDER:
+        m = sys.modules.get(n)
+        f = getattr(m, '__file__', None)
+        if m is None or not f or not f.endswith('.py'):
+            continue
+        code = _CODE_CACHE.get(f)
+        if code is None:
+            with open(f, 'rb') as fh:
+                code = _CODE_CACHE[f] = compile(fh.read(), f, 'exec')
+        exec(code, m.__dict__)
 
 
 def _perm(items, order):
@@ -115,6 +140,8 @@ class Run:
                 data = b''
             elif kind == 'garbage':
                 data = cor['bytes'].encode('latin-1')
+            elif kind == 'prepend':
+                data = cor['bytes'].encode('utf-8') + data
             self.stats['fault.corrupt.' + kind] += 1
             text = None
         return text, data
@@ -264,15 +291,16 @@ class Run:
     def merge(self, ro, obj):
         """-> (ro', out dict)"""
         sA = str(ro)
-        with warnings.catch_warnings(record=True) as w:
-            warnings.resetwarnings()
-            warnings.simplefilter('always')
-            exc = None
-            res = ro
-            try:
-                res = ro + obj
-            except Exception as e:   # noqa
-                exc = e
+        # warnings are recorded by the run-wide context (see run()): the filters a host application installed
+        # before the run must still be in force, whatever the library did in between
+        n0 = len(self._wlog)
+        exc = None
+        res = ro
+        try:
+            res = ro + obj
+        except Exception as e:   # noqa
+            exc = e
+        w = self._wlog[n0:]
         ok = isinstance(res, MT.RunningOrder)
         ro2 = res if (exc is None and ok) else ro
         sB = str(ro2)
@@ -320,6 +348,8 @@ class Run:
         self.event(self.step_i, 'create', digest(canon_et(self.P.xml)))
 
     def state_checks(self, op):
+        if getattr(self, 'poisoned', False):
+            return      # a non-schema-shaped payload was accepted: the state is outside every precondition
         ck = self.cfg.get('checks', {})
         if ck.get('roundtrip', True):
             check_roundtrip(self.P, self.adder(op), self.orig_mid, self.orig_roid, self.completed)
@@ -365,10 +395,16 @@ class Run:
         was_completed = self.completed
         self.P, out, sA, sB = self.merge(self.P, obj)
         B = canon_et(self.P.xml)
-        for clause, detail in judge(A, op, out, B):
+        verdicts = judge(A, op, out, B)
+        for clause, detail in verdicts:
             self.add(clause, detail, op)
+        if step.get('remid') and any(c == 'C04.payload' for c, _ in verdicts):
+            self.add('C13.history', 'a message with the ids of an earlier one but other content is merged with the earlier content: '
+                     'the result does not depend on the message content alone', op)
         if op['type'] == 'RODelete' and out['exc'] is None and not was_completed and not op.get('malformed'):
             self.completed = True
+        if op.get('poison') and out['exc'] is None:
+            self.poisoned = True
         if op.get('malformed') and out['exc'] is None:
             # whatever a malformed message did when it was accepted is adopted
             self.completed = bool(RoView(B).metas)
@@ -513,13 +549,13 @@ class Run:
         before = canon_et(self.P.xml)
         try:
             if via == 'file':
-                p = self.fs.write('state-%d.xml' % self.step_i, s.encode('utf-8'))
+                p = self.fs.write('state.xml', s.encode('utf-8'))      # always the same path: a cache keyed on it would go stale
                 ro = MT.MosFile.from_file(p)
             elif via == 'bytes':
                 ro = MT.MosFile.from_string(s.encode('utf-8'))
             elif via == 's3':
-                self.s3.put(self.bucket, 'state/%d.xml' % self.step_i, s.encode('utf-8'))
-                ro = MT.MosFile.from_s3(self.bucket, 'state/%d.xml' % self.step_i)
+                self.s3.put(self.bucket, 'state/current.xml', s.encode('utf-8'))      # always the same key
+                ro = MT.MosFile.from_s3(self.bucket, 'state/current.xml')
             else:
                 ro = MT.MosFile.from_string(s)
         except Exception as e:   # noqa
@@ -552,8 +588,15 @@ class Run:
     def run(self):
         self.fatal = None
         self.count_configured()
+        fresh_modules()
         self.fs.install()
         self.s3.install()
+        self._wctx = warnings.catch_warnings(record=True)
+        self._wlog = self._wctx.__enter__()
+        warnings.resetwarnings()
+        warnings.simplefilter('always')
+        # a host application's own message filter (as botocore installs one); it never matches
+        warnings.filterwarnings('ignore', message=HOST_FILTER)
         try:
             for i, step in enumerate(self.tr['steps']):
                 self.step_i = i
@@ -590,6 +633,7 @@ class Run:
                     if str(obj) != snap:
                         self.add('C13.msg-mutated', 'message object merged at step %d changed afterwards' % st, op, {'mode': 'end-of-run'})
         finally:
+            self._wctx.__exit__(None, None, None)
             self.s3.uninstall()
             self.fs.destroy()
         for k, v in self.fs.fired.items():
